@@ -401,6 +401,37 @@ fn float32_spellings(seed: u64, i: usize, acc: &mut Acc) {
     }
 }
 
+fn in_common_model(v: &Val) -> bool {
+    match v {
+        Val::Null | Val::Bool(_) | Val::Str(_) => true,
+        Val::Int(i) => *i >= i64::MIN as i128 && *i <= u64::MAX as i128,
+        Val::Float(b) => f64::from_bits(*b).is_finite(),
+        Val::Seq(xs) => xs.iter().all(in_common_model),
+        Val::Map(m) => m.iter().all(|(k, x)| matches!(k, Val::Str(_)) && in_common_model(x)),
+        _ => false,
+    }
+}
+
+/// Every hand-written seed input (the rare syntax of each format) that holds exactly one document of the
+/// common model, as read by the harness's own reader of the SOURCE format: translated to JSON, MessagePack
+/// and YAML, the output must denote that value. The generated spellings never produce most of these forms
+/// (directives, tags, anchors, merge-key look-alikes, dotted keys, inline tables, radix integers, ...).
+fn seed_values(acc: &mut Acc) {
+    for s in crate::corpus::seeds() {
+        let Some(src) = s.fmt else { continue };
+        let Ok(docs) = read_stream(src, &s.bytes) else { continue };
+        if docs.len() != 1 || !in_common_model(&docs[0]) {
+            continue;
+        }
+        acc.count("seed_inputs_inside_the_common_model");
+        for to in fmts::STREAMING {
+            for mode in [Mode::Slice, Mode::Reader(Sched::Fixed(5))] {
+                judge(&s.bytes, Some(src), src, to, &mode, &docs[0], acc);
+            }
+        }
+    }
+}
+
 fn detected_as(input: &[u8]) -> Option<Fmt> {
     xt::verif::detect_slice(input).ok().flatten().map(Fmt::from_xt)
 }
@@ -504,8 +535,10 @@ pub fn run(ctx: &Ctx) -> i32 {
             }
         }
     });
+    let mut acc = acc;
+    seed_values(&mut acc);
     let rule = format!(
-        "{} generated documents of the common model (scalar pools aimed at type look-alike strings, YAML indicators, control/BOM/non-character/astral code points, integer boundaries of every width, 17-digit and special floats; depth up to 64; wide collections at MessagePack header thresholds; every 150th document a 'heavy' one: 4 095..70 000 entries, or tens of KiB of multi-byte text) x 16 (source,target) pairs (TOML pairs on the TOML-representable restriction) x 3 spellings (1 conventional, 2 hostile; every third document's last YAML spelling re-encoded as UTF-16/32 with a byte order mark) x [slice, 1 scheduled reader] x [explicit, detected when the detect hook names the source format]; plus one batch per document of 2-3 documents in different source formats through ONE translator (detection where possible), each output document compared with its translation alone, and one batch of 3-5 calls on ONE translator in which some calls fail (input cut short, a stray byte, a reader that starts failing): every call must end, and write, exactly as on a fresh translator; per document one MessagePack document of numbers in the 32-bit float spelling, MessagePack to MessagePack (identical binary64 values); oracle = independent reader of the target; distinct non-trivial = distinct documents containing >= 1 hostile-class scalar or depth >= 3",
+        "{} generated documents of the common model (scalar pools aimed at type look-alike strings, YAML indicators, control/BOM/non-character/astral code points, integer boundaries of every width, 17-digit and special floats; depth up to 64; wide collections at MessagePack header thresholds; every 150th document a 'heavy' one: 4 095..70 000 entries, or tens of KiB of multi-byte text) x 16 (source,target) pairs (TOML pairs on the TOML-representable restriction) x 3 spellings (1 conventional, 2 hostile; every third document's last YAML spelling re-encoded as UTF-16/32 with a byte order mark) x [slice, 1 scheduled reader] x [explicit, detected when the detect hook names the source format]; plus one batch per document of 2-3 documents in different source formats through ONE translator (detection where possible), each output document compared with its translation alone, and one batch of 3-5 calls on ONE translator in which some calls fail (input cut short, a stray byte, a reader that starts failing): every call must end, and write, exactly as on a fresh translator; per document one MessagePack document of numbers in the 32-bit float spelling, MessagePack to MessagePack (identical binary64 values); every hand-written seed input that holds one common-model document (as read by the harness's reader of the source format) to the three streaming targets; oracle = independent reader of the target; distinct non-trivial = distinct documents containing >= 1 hostile-class scalar or depth >= 3",
         n
     );
     ev::finish(
